@@ -62,12 +62,15 @@ func init() {
 	q := tierCfg{Shards: 8, Checks: 1500}
 	t := tierCfg{Shards: 16, Checks: 40000}
 	for _, id := range []string{"C01", "C02", "C03", "C04", "C05", "C06", "C07", "C08", "C09", "C10", "C11", "C14", "C16", "C17", "C20"} {
-		props[id] = simProp("Test"+id, q, t)
+		pc := simProp("Test"+id, q, t)
+		pc.ExtraRun = "^TestReplay_" + id + "_" // scripted regressions (DESIGN Appendix B)
+		props[id] = pc
 	}
 	c15 := simProp("TestC15", tierCfg{Shards: 8, Checks: 1000}, tierCfg{Shards: 16, Checks: 25000})
 	c15.Assumptions = append(append([]string{}, simAssumptions...),
 		"bounded liveness only: convergence is required within 60 x ElectionTick round-robin tick rounds of a fault-free suffix; all nodes share one ElectionTick/HeartbeatTick; election timeouts are re-drawn at every campaign (as raft does)",
 		"exempt (counted): a voter removed/demoted out of a two-voter set (README)")
+	c15.ExtraRun = "^TestReplay_C15_"
 	props["C15"] = c15
 	pureAssume := []string{"the reference models in harness/refmodel are correct (they are written from the property text and are a few lines each)"}
 	props["C12"] = propCfg{Pkg: "./pure", Test: "TestC12", ExtraRun: "^TestC12Exhaustive$", Level: "exploration",
@@ -406,6 +409,9 @@ func main() {
 	for _, f := range ff.Findings {
 		if f.Status == "open" && f.Property == prop {
 			fmt.Printf("KNOWN-FINDING: property=%s %s: %s\n", prop, f.Signature, f.Description)
+			if strings.Contains(extraOut, "did not reproduce") {
+				fmt.Printf("NOTE: the scripted regression of known finding %s did not reproduce on this tree\n", f.Signature)
+			}
 		}
 	}
 	if violations > 0 {
